@@ -115,6 +115,12 @@ fn boundary() -> Vec<String> {
             }
         }));
         trace.push_str(&format!("# boundary {} total={:?} slices_copy: panicked={} len={} | one-by-one: panicked={} len={}\n", name, total, r.is_err(), v.len(), r1.is_err(), u.len()));
+        // C13: no `std` method of this name; the reference is the same slices appended one by one (same panics, same length)
+        if r.is_err() != r1.is_err() || (r.is_ok() && v.len() != u.len()) {
+            fails.push(format!(
+                "ORACLE C13 std-mismatch boundary={} extend_from_slices_copy: panicked={} len={} but the same slices appended one by one: panicked={} len={}",
+                name, r.is_err(), v.len(), r1.is_err(), u.len()));
+        }
         match total {
             None if r.is_ok() => fails.push(format!(
                 "ORACLE C19 unrepresentable-total-accepted boundary={} extend_from_slices_copy of zero-sized slices whose lengths sum above usize::MAX returned with len={} (one by one: panicked={})",
